@@ -134,15 +134,7 @@ class Scanner:
         return self.scan_grammar_rule
 
     def scan_grammar_doc_inner(self) -> StateFn | None:
-        if self.peek() in (" ", "\t"):
-            self.next()
-
-        if value := self.scan_until(RE_NEWLINE):
-            self.emit(TokenKind.COMMENT_TEXT, value)
-        else:
-            # Empty comment text
-            self.emit(TokenKind.COMMENT_TEXT, "")
-
+        self.emit(TokenKind.COMMENT_TEXT, self.scan_doc_text())
         return self.scan_grammar
 
     def scan_grammar_rule(self) -> StateFn | None:  # noqa: PLR0911
@@ -190,16 +182,18 @@ class Scanner:
         return self.scan_grammar_rule
 
     def scan_rule_doc_inner(self) -> StateFn | None:
+        self.emit(TokenKind.COMMENT_TEXT, self.scan_doc_text())
+        return self.scan_grammar_rule
+
+    def scan_doc_text(self) -> str:
+        """Scan the rest of a doc comment line, without one leading space."""
         if self.peek() in (" ", "\t"):
             self.next()
+            self.start = self.pos
 
-        if value := self.scan_until(RE_NEWLINE):
-            self.emit(TokenKind.COMMENT_TEXT, value)
-        else:
-            # Empty comment text
-            self.emit(TokenKind.COMMENT_TEXT, "")
-
-        return self.scan_grammar_rule
+        match = RE_NEWLINE.search(self.grammar, self.pos)
+        self.pos = match.start() if match else len(self.grammar)
+        return self.grammar[self.start : self.pos]
 
     def accept_expression(self) -> None:
         self.skip_trivia()
